@@ -50,15 +50,16 @@ func (c17) New() interface{} { return &C17Script{} }
 func (c17) Info() core.Info {
 	return core.Info{
 		Runs: map[string]int{"quick": 1500000, "thorough": 100000000},
-		Rule: "Each run is one scripted caller history (<=60 operations: WritePacket of payload-only / AF+payload (AF length 0..183) / AF-only / AF-overrunning packets with or without unit start, Reset, overwrite of the caller's packet buffer after hand-over, scribbling on returned Bytes()/Packets() slices) on a real accumulator with a scripted predicate (threshold, never, always, error window, flapping); Bytes() and Packets() are compared with a 3-state reference model after every operation and a fresh accumulator runs in lock-step after every Reset; plus a complete sweep of all histories of length <=6 over a 7-letter alphabet with a threshold predicate. Non-trivial = at least one reach probe fired.",
+		Rule: "Each run is one scripted caller history (<=60 operations: WritePacket of payload-only / AF+payload (AF length 0..183) / AF-only / AF-overrunning packets with or without unit start, Reset, overwrite of the caller's packet buffer after hand-over, scribbling on returned Bytes()/Packets() slices) on a real accumulator with a scripted predicate (threshold, never, always, error window, flapping); Bytes() and Packets() are compared with a 3-state reference model after every operation and a fresh accumulator runs in lock-step after every Reset; plus a complete sweep of all histories of length <=6 over an 8-letter alphabet with a threshold predicate. Non-trivial = at least one reach probe fired.",
 		Real: []string{"packet.NewAccumulator", "(*accumulator).WritePacket/Bytes/Packets/Reset", "packet.Payload", "packet.PayloadUnitStartIndicator"},
 		Stub: []string{"caller (scripted operation history, buffer reuse)", "predicate (scripted, pure in the bytes)", "packet source"},
 		Assumptions: []string{
 			"whether a payload-less packet (reported as an error, contributing no bytes) is listed by Packets() is left open by the statement: either is accepted, consistently within a run",
-			"payload_unit_start_indicator on a packet without payload is not generated (ISO forbids it and the statement does not decide it)",
+			"a packet with payload_unit_start_indicator but without payload is a unit start (it discards what came before and later continuation packets are accepted) and is itself reported as an error",
+			"lists and byte slices returned earlier must keep their contents whatever is done to the accumulator afterwards (independent copies)",
 			"only slice-level independence of Packets() is demanded",
 		},
-		RequiredProbes: []string{"second_pusi_restart", "refused_before_start", "write_after_done", "pred_err", "nopayload_packet", "reset_mid", "buffer_reused", "scribbled", "done_at_first_packet", "empty_payload_packet", "af_overrun_packet"},
+		RequiredProbes: []string{"pusi_without_payload", "held_results_checked", "second_pusi_restart", "refused_before_start", "write_after_done", "pred_err", "nopayload_packet", "reset_mid", "buffer_reused", "scribbled", "done_at_first_packet", "empty_payload_packet", "af_overrun_packet"},
 	}
 }
 
@@ -150,6 +151,10 @@ func c17GenOp(r *core.Rand, ser int, hasPayloadPUSI bool) C17Op {
 	}
 	if op.Class == "pay" || op.Class == "afpay" {
 		op.PUSI = r.Chance(1, 4)
+	} else {
+		// a unit start on a packet without payload: reported as an error, but it is a unit
+		// start (discards what came before; continuation packets are accepted afterwards)
+		op.PUSI = r.Chance(1, 5)
 	}
 	return op
 }
@@ -190,6 +195,7 @@ var c17Alpha = []C17Op{
 	{Op: "reset"},
 	{Op: "write", Class: "afpay", AFLen: 183, PUSI: true},
 	{Op: "scribble"},
+	{Op: "write", Class: "afonly", PUSI: true},
 }
 
 var c17SweepN = func() int {
@@ -285,6 +291,32 @@ func (c17) Exec(script interface{}, c *core.Ctx) {
 	var callerBuf packet.Packet
 	var lastBytes []byte
 	var lastPkts []*packet.Packet
+	// results handed out earlier: they are independent copies, so whatever happens to the
+	// accumulator later (unit start, reset, new packets) must not change them
+	type heldResult struct {
+		b, bsnap []byte
+		ps       []*packet.Packet
+		psnap    []packet.Packet
+	}
+	var held []heldResult
+	checkHeld := func() bool {
+		for _, h := range held {
+			if !bytes.Equal(h.b, h.bsnap) {
+				c.Fail("bytes_independent", "earlier_bytes_result_changed", "changed", "unchanged")
+				return false
+			}
+			for i, p := range h.ps {
+				if p == nil || *p != h.psnap[i] {
+					c.Fail("packets_independent", "earlier_packets_result_changed", i, "unchanged")
+					return false
+				}
+			}
+		}
+		if len(held) > 0 {
+			c.Probe("held_results_checked")
+		}
+		return true
+	}
 	c.Log("c17 pred=%s n=%d m=%d t=%d ops=%d", s.Pred.Kind, s.Pred.N, s.Pred.M, s.Pred.T, len(s.Ops))
 	c.Unit("operations", int64(len(s.Ops)))
 
@@ -340,6 +372,14 @@ func (c17) Exec(script interface{}, c *core.Ctx) {
 		}
 		if who == "" {
 			lastBytes, lastPkts = b, ps
+			h := heldResult{b: b, bsnap: append([]byte(nil), b...), ps: append([]*packet.Packet(nil), ps...)}
+			for _, p := range ps {
+				h.psnap = append(h.psnap, *p)
+			}
+			held = append(held, h)
+			if len(held) > 4 {
+				held = held[1:]
+			}
 		}
 		return true
 	}
@@ -366,6 +406,9 @@ func (c17) Exec(script interface{}, c *core.Ctx) {
 			c.Fault("caller_reuses_buffer")
 			c.Log("reuse")
 		case "scribble":
+			if len(held) > 0 {
+				held = held[:len(held)-1] // the caller itself changes the most recent result
+			}
 			for k := range lastBytes {
 				lastBytes[k] = 0x55
 			}
@@ -405,6 +448,9 @@ func (c17) Exec(script interface{}, c *core.Ctx) {
 				} else {
 					e.kind = "nopayload"
 					c.Probe("nopayload_packet")
+					if op.PUSI {
+						c.Probe("pusi_without_payload")
+					}
 					if op.Class == "afbad" {
 						c.Probe("af_overrun_packet")
 					}
@@ -502,6 +548,9 @@ func (c17) Exec(script interface{}, c *core.Ctx) {
 				return
 			}
 			c.Log("write class=%s pusi=%t -> %s state=%d len=%d", op.Class, op.PUSI, e.kind, state, len(mbuf))
+		}
+		if !checkHeld() {
+			return
 		}
 		if !check(acc, "") {
 			return
